@@ -204,6 +204,20 @@ def run_case(case, rec):
         rec.violation("dyn-term/%s/%s" % (sigk, "per-component-weight" if nonuni else "value"),
                       "dynamic term %r, expected mean_i sum_c w_c r_c(p_i)^2 = %r (B=%d ncomp=%d w=%s)"
                       % (got, exp, B, case["ncomp"], wdyn), got=got, expected=exp)
+    # ---------------------------------------------------------------- a residual that is NaN at ONE collocation point
+    # (finite parameters; e.g. sin(t)/t with t = 0 in the batch): the mean over the batch points is then NaN - the
+    # point may not be dropped silently
+    if case["seed"] % 5 == 2 and not spinn and B >= 2:
+        from ..eqs import singular_module
+        ls = eqx.tree_at(lambda l: l.dynamic_loss, loss, singular_module(dyn, kind, pts[B // 2]))
+        tot_s, terms_s = guard.call(ev, ls, params, batch)
+        rec.count("batches_with_one_singular_point")
+        if not np.isnan(float(terms_s["dyn_loss"])):
+            rec.violation("dyn-term/%s/nan-residual-point-dropped" % sigk,
+                          "the residual is NaN at one of the %d batch points but the dynamic term is %r (mean over all points "
+                          "of the batch is NaN; value with that point finite: %r)" % (B, float(terms_s["dyn_loss"]), got))
+        if not np.isnan(float(tot_s)):
+            rec.violation("total-not-sum/%s/nan-term" % sigk, "a NaN dynamic term but a finite total %r" % float(tot_s))
     # ---------------------------------------------------------------- the documented default: every weight 1.0
     if case["seed"] % 4 == 1:
         ld = guard.call(Loss, u=u, dynamic_loss=dyn, params=params, **kw)
